@@ -313,6 +313,22 @@ def execute(case):
     return exec_pair(case)
 
 
+def replay(case):
+    if case.get("kind") == "pair" and case["pair"][0] != case["pair"][1]:
+        vs = exec_pair(case)
+        if not vs or "shas" not in vs[0]:
+            return vs
+        out = []
+        for n, sha in vs[0]["shas"].items():
+            alone = exec_pair({"kind": "pair", "pair": [n, n]})
+            if alone and alone[0].get("sha") and alone[0]["sha"] != sha:
+                out.append(bad("C20.each-font-as-alone", f"{n}.ttf built together with {[x for x in case['pair'] if x != n][0]} differs from {n}.ttf built alone"))
+        return out or [ok("C20.pair")]
+    if case.get("kind") == "meta":
+        return [bad("C20.field-without-observable", str(case))]
+    return execute(case)
+
+
 def run(report, tier, only=None):
     from vmc.drive import inproc, conformance
 
